@@ -183,7 +183,27 @@ def extract(prog, entry, conf_fields=None):
 # ---------------------------------------------------------------------------------------------------
 # actix resource patterns -> z3 RegLan  ({name} = [^/]+ ; {name:re} = re ; tail patterns {x:.*})
 # ---------------------------------------------------------------------------------------------------
-def pattern_to_re(pat):
+PROTECTED = "%/+"  # actix_router::url::DEFAULT_QUOTER = Quoter::new(b"", b"%/+")
+
+
+def enc_char(c):
+    """raw spellings of one path character that actix's router requotes to c before matching: c itself or its
+    percent-encoding (hex digits in either case), unless c is protected"""
+    if c in PROTECTED or ord(c) > 126:
+        return z3.Re(c)
+    hx = "%02X" % ord(c)
+    alts = {"%" + a + b for a in {hx[0], hx[0].lower()} for b in {hx[1], hx[1].lower()}}
+    return z3.Union(z3.Re(c), *[z3.Re(a) for a in sorted(alts)])
+
+
+def enc_literal(lit):
+    parts = [enc_char(c) for c in lit]
+    return parts[0] if len(parts) == 1 else z3.Concat(*parts)
+
+
+def pattern_to_re(pat, raw=False):
+    """raw=False: language of the (requoted) path the router matches. raw=True: language of the raw request paths
+    that the router requotes into it (what a middleware calling request.path() sees)."""
     parts = []
     i = 0
     lit = ""
@@ -202,7 +222,7 @@ def pattern_to_re(pat):
                 j += 1
             body = pat[i + 1:j]
             if lit:
-                parts.append(z3.Re(lit))
+                parts.append(enc_literal(lit) if raw else z3.Re(lit))
                 lit = ""
             if ":" in body:
                 rx = body.split(":", 1)[1]
@@ -215,7 +235,7 @@ def pattern_to_re(pat):
             lit += c
             i += 1
     if lit:
-        parts.append(z3.Re(lit))
+        parts.append(enc_literal(lit) if raw else z3.Re(lit))
     if not parts:
         return z3.Re("")
     return parts[0] if len(parts) == 1 else z3.Concat(*parts)
